@@ -212,7 +212,9 @@ func (c *cs) afterDecided(exp [][32]byte) {
 	}
 	c.roots, c.typ, c.slot = rkit.Roots(own), own.Message.Type, own.Message.Slot
 	a, b := append([][32]byte{}, c.roots...), append([][32]byte{}, exp...)
-	less := func(x [][32]byte) func(i, j int) bool { return func(i, j int) bool { return string(x[i][:]) < string(x[j][:]) } }
+	less := func(x [][32]byte) func(i, j int) bool {
+		return func(i, j int) bool { return string(x[i][:]) < string(x[j][:]) }
+	}
 	sort.Slice(a, less(a))
 	sort.Slice(b, less(b))
 	same := len(a) == len(b)
@@ -634,7 +636,9 @@ func genCase(s *state, r *hx.Rng) {
 		byz[p+1] = true
 	}
 	var evs []string
-	good := func(id int) string { return fmt.Sprintf("msg s=%d in=%d slot=0 sh=%s", id, id, shToks(k, func(int) byte { return 'g' })) }
+	good := func(id int) string {
+		return fmt.Sprintf("msg s=%d in=%d slot=0 sh=%s", id, id, shToks(k, func(int) byte { return 'g' }))
+	}
 	for id := 1; id <= n; id++ {
 		if !byz[id] {
 			if r.Chance(90) {
